@@ -11,22 +11,42 @@
    then the mapping of the script's number to the code (Map).  An outage can begin or end
    between any two steps; the clock moves between any two steps.
 
+   Align() (constant Align): the limiter object is built at clock 0; the wall clock is the store's
+   clock plus `phase`.  A Take first computes the script's window argument from the wall clock
+   (Args: calcExpireSeconds, `period - localSecond mod period`), then the script runs - the clock
+   may move in between.  FreezeWindow = TRUE is the mistake of computing that argument once, when
+   the object is built (a cached argument list): every later period is cut as if it had begun at
+   the object's birth.
+
    The abstract limiter's variables are part of this module; the step that is the abstract
    Take performs it with the code the implementation is going to answer; if the abstract
    limiter does not allow that answer the step sets `bad` (invariant Conforms).            *)
 EXTENDS PeriodLimit, TLC
 
-CONSTANTS NProc, PQs, Atomic, MaxTakes, MaxAdv, MaxFaults
+CONSTANTS NProc, PQs, Atomic, MaxTakes, MaxAdv, MaxFaults,
+  Align,         \* the limiter was built with Align()
+  IPhases,       \* wall clock minus store clock, ms
+  FreezeWindow   \* seeded mistake: the window argument is computed when the object is built
 
-VARIABLES clk, storeUp, val, kexp, pc, cur, res, takes, advs, faults, bad
-ivars == <<clk, storeUp, val, kexp, pc, cur, res, takes, advs, faults, bad>>
+VARIABLES clk, storeUp, val, kexp, pc, cur, res, takes, advs, faults, bad,
+  phase,  \* wall clock = clk + phase
+  wsec    \* goroutine |-> the local second its clock read showed (Args)
+ivars == <<clk, storeUp, val, kexp, pc, cur, res, takes, advs, faults, bad, phase, wsec>>
 vars == <<pvars, ivars>>
 
 Procs == 0..(NProc - 1)
 PQsA == {<<2, 1>>, <<1, 2>>}
+PQsB == {<<3, 1>>, <<2, 2>>}
+
+LocalSec == (clk + phase) \div 1000
+\* the script's window argument for a Take that read the clock at local second s
+WindowArg(s) == IF ~Align THEN period
+                ELSE IF FreezeWindow THEN period - ((phase \div 1000) % period)    \* as at clock 0
+                ELSE period - (s % period)
 
 IInit ==
-  /\ \E q \in PQs : PInit({0}, q[1], q[2], FALSE)
+  /\ \E q \in PQs : PInit({0}, q[1], q[2], Align)
+  /\ phase \in IPhases /\ wsec = [p \in Procs |-> 0]
   /\ clk = 0 /\ storeUp = TRUE /\ val = 0 /\ kexp = 0
   /\ pc = [p \in Procs |-> "idle"] /\ cur = [p \in Procs |-> 0] /\ res = [p \in Procs |-> 0]
   /\ takes = 0 /\ advs = 0 /\ faults = 0 /\ bad = ""
@@ -41,21 +61,22 @@ Start(p) ==
   /\ pc[p] = "idle" /\ takes < MaxTakes
   /\ takes' = takes + 1
   /\ pc' = [pc EXCEPT ![p] = IF Atomic THEN "run" ELSE "incr"]
-  /\ UNCHANGED <<pvars, clk, storeUp, val, kexp, cur, res, advs, faults, bad>>
+  /\ wsec' = [wsec EXCEPT ![p] = IF Align THEN LocalSec ELSE 0]       \* Args: calcExpireSeconds reads the wall clock
+  /\ UNCHANGED <<pvars, clk, storeUp, val, kexp, cur, res, advs, faults, bad, phase>>
 
 \* the atomic script
 Run(p) ==
   /\ pc[p] = "run"
   /\ IF storeUp
        THEN /\ val' = val + 1
-            /\ kexp' = IF val = 0 THEN clk + period * 1000 ELSE kexp
+            /\ kexp' = IF val = 0 THEN clk + WindowArg(wsec[p]) * 1000 ELSE kexp
             /\ res' = [res EXCEPT ![p] = ScriptCode(val + 1)]
-            /\ Abstract(TakeOk(0, ScriptCode(val + 1)), "answer differs from the abstract period limiter")
+            /\ Abstract(TakeOk(0, ScriptCode(val + 1), {wsec[p]}), "answer differs from the abstract period limiter")
        ELSE /\ UNCHANGED <<val, kexp>>
             /\ res' = [res EXCEPT ![p] = Unknown]
-            /\ Abstract(TakeErr(0, Unknown) /\ UNCHANGED <<cnt, exp>>, "error although the store is reachable")
+            /\ Abstract(TakeErr(0, Unknown, {wsec[p]}) /\ UNCHANGED <<cnt, exp>>, "error although the store is reachable")
   /\ pc' = [pc EXCEPT ![p] = "idle"]
-  /\ UNCHANGED <<clk, storeUp, cur, takes, advs, faults>>
+  /\ UNCHANGED <<clk, storeUp, cur, takes, advs, faults, phase, wsec>>
 
 \* the same as two commands
 Incr(p) ==
@@ -65,18 +86,18 @@ Incr(p) ==
             /\ cur' = [cur EXCEPT ![p] = val + 1]
             /\ res' = [res EXCEPT ![p] = ScriptCode(val + 1)]
             /\ pc' = [pc EXCEPT ![p] = IF val = 0 THEN "expire" ELSE "idle"]
-            /\ Abstract(TakeOk(0, ScriptCode(val + 1)), "answer differs from the abstract period limiter")
+            /\ Abstract(TakeOk(0, ScriptCode(val + 1), {wsec[p]}), "answer differs from the abstract period limiter")
        ELSE /\ UNCHANGED <<val, cur>>
             /\ res' = [res EXCEPT ![p] = Unknown]
             /\ pc' = [pc EXCEPT ![p] = "idle"]
-            /\ Abstract(TakeErr(0, Unknown) /\ UNCHANGED <<cnt, exp>>, "error although the store is reachable")
-  /\ UNCHANGED <<clk, storeUp, kexp, takes, advs, faults>>
+            /\ Abstract(TakeErr(0, Unknown, {wsec[p]}) /\ UNCHANGED <<cnt, exp>>, "error although the store is reachable")
+  /\ UNCHANGED <<clk, storeUp, kexp, takes, advs, faults, phase, wsec>>
 
 Expire(p) ==
   /\ pc[p] = "expire"
-  /\ kexp' = IF storeUp /\ val > 0 THEN clk + period * 1000 ELSE kexp
+  /\ kexp' = IF storeUp /\ val > 0 THEN clk + WindowArg(wsec[p]) * 1000 ELSE kexp
   /\ pc' = [pc EXCEPT ![p] = "idle"]
-  /\ UNCHANGED <<pvars, clk, storeUp, val, cur, res, takes, advs, faults, bad>>
+  /\ UNCHANGED <<pvars, clk, storeUp, val, cur, res, takes, advs, faults, bad, phase, wsec>>
 
 Advance(d) ==
   /\ advs < MaxAdv /\ bad = ""
@@ -84,18 +105,18 @@ Advance(d) ==
   /\ clk' = clk + d
   /\ IF kexp > 0 /\ clk + d >= kexp THEN val' = 0 /\ kexp' = 0 ELSE UNCHANGED <<val, kexp>>
   /\ PAdvance(d)
-  /\ UNCHANGED <<storeUp, pc, cur, res, takes, faults, bad>>
+  /\ UNCHANGED <<storeUp, pc, cur, res, takes, faults, bad, phase, wsec>>
 
 Outage ==
   /\ faults < MaxFaults /\ bad = ""
   /\ faults' = faults + 1
   /\ storeUp' = ~storeUp
   /\ PFault(IF storeUp THEN "down" ELSE "up")
-  /\ UNCHANGED <<clk, val, kexp, pc, cur, res, takes, advs, bad>>
+  /\ UNCHANGED <<clk, val, kexp, pc, cur, res, takes, advs, bad, phase, wsec>>
 
 INext ==
   \/ \E p \in Procs : Start(p) \/ Run(p) \/ Incr(p) \/ Expire(p)
-  \/ \E d \in {1000, period * 1000} : Advance(d)
+  \/ \E d \in {1000, period * 1000} \cup (IF Align THEN {400} ELSE {}) : Advance(d)
   \/ Outage
 ISpec == IInit /\ [][INext]_vars
 
